@@ -58,16 +58,23 @@ fn bounds_for(prop: &str, tier: &str, th: &Theory) -> Bounds {
         max_defines: m("max_defines", if thorough { 2 } else { 1 }) as usize,
         max_closes: if thorough { 3 } else { 2 },
         state_cap: envu("VERIF_STATE_CAP", if thorough { 400_000 } else { 150_000 }) as usize,
-        wall_cap_s: envu("VERIF_THEORY_WALL", if thorough { 60 } else { 10 }),
+        trans_cap: envu("VERIF_TRANS_CAP", if thorough { 600_000 } else { 30_000 }) as usize,
+        wall_cap_s: envu("VERIF_THEORY_WALL", if thorough { 1800 } else { 120 }),
         close_until: prop == "C07",
     };
+    if th.meta.get("sweep").is_some() {
+        // corpus S: many small theories, each with a small deterministic budget
+        b.depth = if thorough { 4 } else { 3 };
+        b.trans_cap = envu("VERIF_SWEEP_TRANS_CAP", if thorough { 60_000 } else { 6_000 }) as usize;
+        b.max_closes = 2;
+    }
     if let Ok(d) = std::env::var("VERIF_DEPTH") { b.depth = d.parse().unwrap(); }
     if prop == "C17" { b.depth += 1; }
     if prop == "C07" {
         // the budget goes into sequences of early exits and resumptions rather than into more elements
         b.extra_new = 0;
         b.max_closes = if thorough { 4 } else { 3 };
-        if !thorough { b.wall_cap_s = envu("VERIF_THEORY_WALL", 10); b.state_cap = envu("VERIF_STATE_CAP", 60_000) as usize; }
+        if !thorough { b.state_cap = envu("VERIF_STATE_CAP", 60_000) as usize; }
     }
     b
 }
@@ -125,7 +132,7 @@ fn main() {
         for v in &r.violations { violations.push(json!({"sig": v.sig, "summary": v.summary, "replay": v.replay, "theory": r.theory})); }
         if let Some(s) = r.samples.first() { if samples.len() < 6 { samples.push(json!({"theory": r.theory, "history": s})); } }
         per_theory.push(json!({"theory": r.theory, "states": r.states, "transitions": r.transitions, "closed_states": r.closes, "closed_states_with_a_rule_match": r.nontrivial,
-            "depth_completed": r.depth_completed, "capped": r.capped, "inconclusive": r.inconclusive, "max_close_iterations": r.max_close_iterations,
+            "depth_completed": r.depth_completed, "capped": r.capped, "cap_hit": r.cap_hit, "inconclusive": r.inconclusive, "max_close_iterations": r.max_close_iterations,
             "assertion_groups": r.groups, "groups_with_at_least_two_histories": r.groups_nontrivial}));
         if oracles.collect_transcripts {
             let mut h = std::collections::hash_map::DefaultHasher::new();
